@@ -107,6 +107,20 @@ func CompareColumns(base [2][]string, others ...[2][]string) *ColDiff {
 	return c
 }
 
+// SameLayoutAsBase reports whether a layer has exactly the base's columns in the base's
+// order. Only then do equal row sums mean equal rows.
+func (c *ColDiff) SameLayoutAsBase(layer int) bool {
+	if len(c.Added[layer]) > 0 || len(c.Removed[layer]) > 0 || len(c.OtherIdx[layer]) != len(c.BaseIdx) {
+		return false
+	}
+	for i, j := range c.BaseIdx {
+		if k, ok := c.OtherIdx[layer][i]; !ok || k != j {
+			return false
+		}
+	}
+	return true
+}
+
 func (c *ColDiff) Layers() int {
 	return len(c.Added)
 }
